@@ -225,3 +225,5 @@ LEVEL_TEXT = ("Decides on all CFG paths of the process-state code: lock-before-p
               "cleaner abandoned on every error exit. Necessary conditions of sound verdicts / exclusive cleanup; kernel interleavings are not decided.")
 LEVEL_NOTE = "Trusted: rustc MIR; the file-role naming via debug-info variable names (state_file/owner_lock_file/context_file). Not decided: kernel lock behaviour."
 TECHNIQUE = "static analysis: MIR dominance, only-under-arm and no-error-after-effect path rules over the process-state protocol"
+
+THOROUGH_UNIVERSES = ['dev_permissions']
